@@ -198,18 +198,23 @@ def all_cases(tier):
 
 
 def rand_tree(rng, depth):
-    """(text, upper bound on the number of terms of the expansion)."""
+    """(text, upper bound on the number of terms of the LARGEST intermediate expansion)."""
+    t, size, cost = _rand_tree(rng, depth)
+    return t, cost
+
+
+def _rand_tree(rng, depth):
     if depth <= 0 or rng.random() < 0.25:
-        return rng.choice(ATOMS6 + ["d", "e", "np.log(x)", "`q q`", "h(x, k=1)"]), 1
+        return rng.choice(ATOMS6 + ["d", "e", "np.log(x)", "`q q`", "h(x, k=1)"]), 1, 1
     r = rng.random()
     if r < 0.12:
-        t, b = rand_tree(rng, depth - 1)
+        t, b, c = _rand_tree(rng, depth - 1)
         e = rng.choice([1, 2, 2, 3, 4])
-        return f"({t})**{e}", b ** e
+        return f"({t})**{e}", b ** e, max(c, b ** e)
     op = rng.choice(OPS + ["+", ":"])
-    (lt, lb), (rt, rb) = rand_tree(rng, depth - 1), rand_tree(rng, depth - 1)
-    bound = {"+": lb + rb, "-": lb, ":": lb * rb, "*": lb + rb + lb * rb, "/": lb + rb}[op]
-    return f"({lt}) {op} ({rt})", bound
+    (lt, lb, lc), (rt, rb, rc) = _rand_tree(rng, depth - 1), _rand_tree(rng, depth - 1)
+    size = {"+": lb + rb, "-": lb, ":": lb * rb, "*": lb + rb + lb * rb, "/": lb + rb}[op]
+    return f"({lt}) {op} ({rt})", size, max(size, lc, rc)
 
 
 def run_shard(i, n, tier, seed, m):
